@@ -403,6 +403,11 @@ class BernoulliFamily(StatelessDistributionFamilyFromTorchDistribution):
     parameters: ClassVar = ("loc",)
     dist_factory: ClassVar = torch.distributions.Bernoulli
 
+    @classmethod
+    def _nll(cls, x: WeightedTensor, *params: torch.Tensor) -> WeightedTensor:
+        # masked values are meaningless: replace them by a value of the support before evaluating the density
+        return WeightedTensor(-cls.dist_factory(*params).log_prob(x.filled(0)), x.weight)
+
 
 class NormalFamily(StatelessDistributionFamilyFromTorchDistribution):
     """
